@@ -57,6 +57,18 @@ func nearParDirs(limit int64, thorough bool, fn func(base int, m int64, d1, d2 e
 	}
 }
 
+// diffsWithin: every coordinate difference among the points is at most lim.
+func diffsWithin(lim int64, ps ...exact.P) bool {
+	for i := range ps {
+		for j := i + 1; j < len(ps); j++ {
+			if abs64i(ps[i].X-ps[j].X) > lim || abs64i(ps[i].Y-ps[j].Y) > lim {
+				return false
+			}
+		}
+	}
+	return true
+}
+
 func in20(p exact.P) bool { return abs64i(p.X) <= 1<<20 && abs64i(p.Y) <= 1<<20 }
 func padd(a, b exact.P) exact.P { return exact.P{X: a.X + b.X, Y: a.Y + b.Y} }
 func psub(a, b exact.P) exact.P { return exact.P{X: a.X - b.X, Y: a.Y - b.Y} }
@@ -78,7 +90,7 @@ func c19NearParallel(r *rt.Run) {
 	nInt := len(jobs)
 	// the same family on a grid of 1/64 (lengths above 2^20 lattice units only:
 	// the shorter ones are power-of-two copies of the integer ones)
-	nearParDirs(1<<25, r.Thorough(), func(bi int, m int64, d1, d2 exact.P) {
+	nearParDirs(1<<26-4, r.Thorough(), func(bi int, m int64, d1, d2 exact.P) {
 		if m > 1<<20 {
 			jobs = append(jobs, job{bi, m, d1, d2})
 		}
@@ -100,9 +112,16 @@ func c19NearParallel(r *rt.Run) {
 			for ox := int64(-1); ox <= 1; ox++ {
 				for oy := int64(-1); oy <= 1; oy++ {
 					o := padd(c, exact.P{X: ox, Y: oy})
-					for cfg := 0; cfg < 3; cfg++ {
+					for cfg := 0; cfg < 4; cfg++ {
 						var p, q exact.P
+						a, b, fs := a, b, fs
 						switch cfg {
+						case 3:
+							// one-sided first segment; the second starts next to its far end and runs back
+							a, b = c, padd(c, jb.d1)
+							fs = geometry.Segment{A: t.pt(a), B: t.pt(b)}
+							p = padd(b, exact.P{X: ox, Y: oy})
+							q = psub(p, jb.d2)
 						case 0:
 							p, q = psub(o, jb.d2), padd(o, jb.d2)
 						case 1:
@@ -113,6 +132,9 @@ func c19NearParallel(r *rt.Run) {
 						}
 						if !in20(a) || !in20(b) || !in20(p) || !in20(q) {
 							continue
+						}
+						if i >= nInt && !diffsWithin(1<<26, a, b, p, q) {
+							continue // products of differences must stay exact in float64 (< 2^53)
 						}
 						fo := geometry.Segment{A: t.pt(p), B: t.pt(q)}
 						want := exact.SegsIntersect(a, b, p, q)
